@@ -26,7 +26,7 @@ func sign(claims []byte) string {
 // (what the kernel asserts: an id pattern, a non-empty state list for promises, a page size of 1..100, non-nil tags).
 func FuzzForgedCursor(f *testing.F) {
 	for _, s := range []string{`{"Next":{"id":"*","states":["PENDING"],"tags":{},"limit":10,"sortId":5}}`, `{"Next":null}`, `{}`, `{"Next":{}}`, `{"Next":{"id":"","limit":0}}`,
-		`{"Next":{"id":"*","states":[],"limit":1}}`, `{"Next":{"id":"*","states":["NOPE"],"limit":1}}`, `{"Next":{"id":"*","states":["PENDING"],"limit":101}}`, `{"Next":{"id":"*","states":["PENDING"],"limit":-1}}`,
+		`{"Next":{"id":"*","states":[],"limit":1}}`, `{"Next":{"id":"*","states":["NOPE"],"limit":1}}`, `{"Next":{"id":"*","states":["PENDING"],"limit":101}}`, `{"Next":{"id":"*","states":["PENDING"],"tags":{},"limit":0}}`, `{"Next":{"id":"*","tags":{},"limit":0}}`, `{"Next":{"id":"*","states":["PENDING"],"tags":{},"limit":100}}`, `{"Next":{"id":"*","states":["PENDING"],"tags":{},"limit":1}}`, `{"Next":{"id":"*","states":["PENDING"],"limit":-1}}`,
 		`{"Next":{"id":"*","states":["PENDING"],"tags":null,"limit":100,"sortId":null}}`, `{"Next":{"id":"a*","tags":{"k":"v"},"limit":3,"sortId":1}}`, `{"Next":[1]}`, `{"Next":"x"}`, `null`, `[]`, `{"Next":{"id":1}}`,
 		`{"Next":{"id":"*","states":["PENDING"],"limit":1e3}}`, `{"Next":{"id":"*","states":["PENDING"],"limit":9223372036854775808}}`, `{"Next":{"Id":"*","States":["RESOLVED"],"Limit":5,"SortId":7}}`} {
 		f.Add([]byte(s))
